@@ -112,6 +112,13 @@ where
     drive_opts(seed, total_cases, max_len, tolerated, 600, 6000, f)
 }
 
+thread_local! {
+    /// per-call override of the shard count (used by checks whose cases spawn
+    /// many OS threads themselves)
+    pub static SHARDS_OVERRIDE: std::cell::Cell<Option<usize>> =
+        const { std::cell::Cell::new(None) };
+}
+
 /// Like [`drive`], with explicit shrinking budgets (library shrink iterations
 /// and ddmin evaluations). Shrinking additionally stops after 150 s of wall
 /// time; that only affects how small the reported case is, never the verdict.
@@ -127,7 +134,7 @@ pub fn drive_opts<F>(
 where
     F: Fn(&[u8]) -> CaseResult + Sync,
 {
-    let n = shards() as u64;
+    let n = SHARDS_OVERRIDE.with(std::cell::Cell::get).unwrap_or_else(shards) as u64;
     let total_cases = std::env::var("VERIF_CASES")
         .ok()
         .and_then(|s| s.parse().ok())
